@@ -2,15 +2,14 @@
 use blake3::platform::Platform;
 use blake3::IncrementCounter;
 
+/// the Platform value for a level name, obtained through the hook (so that levels the build does not
+/// contain, e.g. AVX-512 in a `pure` build, simply report `unsupported`); the caller's override is restored
 fn plat(name: &str) -> Option<Platform> {
-    match name {
-        "portable" => Some(Platform::portable()),
-        "sse2" => Platform::sse2(),
-        "sse41" => Platform::sse41(),
-        "avx2" => Platform::avx2(),
-        "avx512" => Platform::avx512(),
-        _ => None,
-    }
+    let ok = blake3::platform::verif_hooks::set_platform_override(name);
+    let p = if ok { Some(Platform::detect()) } else { None };
+    let cur = super::CURRENT_PLAT.with(|c| c.borrow().clone());
+    blake3::platform::verif_hooks::set_platform_override(&cur);
+    p
 }
 
 fn words(b: &[u8]) -> [u32; 8] {
